@@ -28,9 +28,14 @@ CLAIMED = {
         technique="deterministic simulation: tie-order seam x display-option histories, independent text reader",
         text="str and repr of generated arrays (units, negative/complex/bool coefficients, narrow dtypes, names to q12) under all display orders, alternative exponent/multiply signs (reached through option histories) and adversarial tie policies are read back by an independent tokenizer/evaluator over dictionary polynomials and must equal the polynomial; printed monomials must follow the selected order; text must not depend on the tie policy; to_sympy round trip for 0-d int/float polynomials. Chunks of runs share a process, so state leaking between prints (caches) is found and replayed with its history.",
         note="numpy print options pinned to defaults; arrays below the summarisation threshold; the sympy clause runs under the default signs."),
+
+    "C11": dict(level="exploration", ref="DESIGN.md §4 C11",
+        technique="deterministic simulation: tie-order seam x heap-content seam, numpy itself as the oracle on the raw arrays",
+        text="For 70 mirrored functions with argument generators, numeric arrays with many repeated values are wrapped as constant polynomials (plain, with unused names, with retained zero terms) and the numpoly result (numpoly and numpy-dispatch spellings) is compared with numpy's on the raw arrays under (tie policy, heap fill) environments; argmax/argmin ties, amax/amin along axes and every allocation-dependent result must agree with numpy and be identical across environments; non-constant divisors must raise FeatureNotSupported.",
+        note="Only 'numpy returns => numpoly returns the same' is asserted. Text functions, savetxt and copyto are not compared (C16/C13/output target). numpy.det is compared with an absolute tolerance (floating-point LU vs exact expansion). Three genuine defects are listed in known_findings.json."),
 }
 
-PENDING = {k: "check under construction in this session; will be claimed (see DESIGN.md verdict table)" for k in ["C11","C12","C13","C15","C20"]}
+PENDING = {k: "check under construction in this session; will be claimed (see DESIGN.md verdict table)" for k in ["C12","C13","C15","C20"]}
 
 NOT_APPLICABLE = {
     "C01": "ring arithmetic is a pure function of the operands: no schedule, clock, fault, stream or global history in any clause; its one environment dependence (unwritten coefficients) is decided under C12",
